@@ -26,7 +26,7 @@ MAP = {
     "mc/isobaric.py": ["C03", "C20", "C04"],
     "mc/isotension.py": ["C03", "C20", "C02"],
     "mc/fbmc.py": ["C13", "C18", "C12", "C07"],
-    "moves/displacement.py": ["C11", "C03", "C14", "C12"],
+    "moves/displacement.py": ["C11", "C03", "C14", "C12", "C05"],
     "moves/exchange.py": ["C05", "C03"],
     "moves/composite.py": ["C17", "C05"],
     "moves/core.py": ["C17", "C08"],
